@@ -76,9 +76,24 @@ structure DRun where
   st : DSt
   defs : List (Cls × Cls) := []
   iters : List Iter := []
+  /-- trigger of F-C13-3: an instance became known to the registry while a stepwise evaluation was suspended that
+  has not yet reached the class of that instance -/
+  lateKnown : Bool := false
+
+/-- the wrappers the registry has after an operation and did not have before it: instances created by the operation, and
+live instances the registry had forgotten (`clear`) that the operation wraps again (`ensure_wrapped_instance`: an end of
+a relation, a role taker, an item of an adopted container, …) -/
+def newlyKnown (before after : DSt) : List W :=
+  after.g.byClass.filter (fun w => !before.g.byClass.any (fun v => v.obj == w.obj))
+
+/-- is some evaluation suspended (first `next()` done, not ended) whose walk has yet to reach the class of `w` -/
+def awaited (iters : List Iter) (w : W) : Bool :=
+  iters.any (fun it => it.started && it.status == 0 && it.walk.contains w.cls)
 
 def stepDOp (q : Quirks) (snap skipDead : Bool) (Sfinal : Schema) (r : DRun) : DOp → DRun
-  | .m ops => { r with st := runXS Sfinal q r.st ops }
+  | .m ops =>
+    let st := runXS Sfinal q r.st ops
+    { r with st := st, lateKnown := r.lateKnown || (newlyKnown r.st st).any (awaited r.iters) }
   | .defclass c p => { r with defs := r.defs ++ [(c, p)] }
   | .qstart k c =>
     if r.iters.any (fun it => it.key == k) then r
@@ -112,32 +127,6 @@ def obsD (r : DRun) : String :=
 def runDOps (q : Quirks) (snap skipDead : Bool) (Sfinal : Schema) (ops : List DOp) : DRun :=
   ops.foldl (stepDOp q snap skipDead Sfinal) { st := St.init lifo }
 
-/-- is `c` at or below `t` in the final hierarchy -/
-def isBelow (S : Schema) (t c : Cls) : Bool := (S.below t).contains c
-
-/-- F-C13-3: while a stepwise evaluation is suspended (after its first `next()`, before it ended) an instance of its
-type is created. (Second component: some instance is dropped meanwhile — the trigger of F-C13-4, repaired in /repo: no
-case is attributed to it any more.) -/
-def trigSuspended (S : Schema) (ops : List DOp) : Bool × Bool :=
-  let step := fun (acc : List (Nat × Cls) × List Nat × Bool × Bool) (op : DOp) =>
-    let (pending, started, t3, t4) := acc
-    match op with
-    | .qstart k c => ((k, c) :: pending, started, t3, t4)
-    | .qnext k => (pending, if started.contains k then started else k :: started, t3, t4)
-    | .m os =>
-      let open_ := pending.filter (fun p => started.contains p.1)
-      let created := os.any (fun o => match o with
-        | .m (.new _ c _) => open_.any (fun p => isBelow S p.2 c)
-        | .newrole .. => open_.any (fun p => isBelow S p.2 8)
-        | .newholder .. => open_.any (fun p => isBelow S p.2 12)
-        | .clone .. => !open_.isEmpty
-        | _ => false)
-      let dropped := !open_.isEmpty && os.any (fun o => match o with | .m (.drop _) => true | _ => false)
-      (pending, started, t3 || created, t4 || dropped)
-    | _ => acc
-  let r := ops.foldl step ([], [], false, false)
-  (r.2.2.1, r.2.2.2)
-
 def run (s : Sexp) : String :=
   match s with
   | .list (.atom "h" :: xs) =>
@@ -147,9 +136,11 @@ def run (s : Sexp) : String :=
         | .m xs => xs.filterMap (fun x => match x with | XOp.m op => some op | _ => none)
         | _ => [])
       let S := schemaWith (parseDefs xs)
-      let m := obsD (runDOps Quirks.asIs false true S dops)
+      let r := runDOps Quirks.asIs false true S dops
+      let m := obsD r
       let mr := obsD (runDOps Quirks.none true true S dops)
-      let (t3, _) := trigSuspended S dops
+      -- F-C13-3: read off the run of the model of the code as it is (`DRun.lateKnown`)
+      let t3 := r.lateKnown
       let trig := joinTrig [(trigReeval ops, "F-C13-1"),
         -- (F-C13-2, classes listed twice below T, and F-C13-4, an instance that died while an evaluation was suspended
         -- yielded as None, are repaired in /repo: no case is attributed to them any more)
